@@ -1176,7 +1176,9 @@ bool StepScript(ScriptExecutionEnvironment& env, CScript::const_iterator& pc, CS
                         valtype& vchSig = stacktop(-isig-k);
                         if (sigversion == SigVersion::BASE) {
                             int found = FindAndDelete(scriptCode, CScript() << vchSig);
-                            if (found > 0 && (flags & SCRIPT_VERIFY_CONST_SCRIPTCODE))
+                            // (a signature listed with --pretend-valid is accepted regardless of the rules for real signatures,
+                            // as in OP_CHECKSIG, where the listed pair is honoured before this test is reached)
+                            if (found > 0 && (flags & SCRIPT_VERIFY_CONST_SCRIPTCODE) && !pretend_valid_map.count(vchSig))
                                 return set_error(serror, SCRIPT_ERR_SIG_FINDANDDELETE);
                         }
                     }
